@@ -39,6 +39,87 @@ func extBool(p *core.Program, suffix string, want bool, preds ...side) core.Guar
 	}
 }
 
+// timeRel: the relation between two time values a and b established on the edge where atom ca has the given
+// truth value: Before(a,b) ≡ a<b, After(a,b) ≡ a>b, Equal(a,b) ≡ a==b (full time.Time precision only; a
+// comparison of truncated values such as Unix seconds establishes nothing). Helpers that forward such a call
+// are followed one level.
+func timeRel(p *core.Program, ca *core.CondAtom, truth bool, a, b side) string {
+	if ca.Kind != "callbool" || ca.Call == nil {
+		return ""
+	}
+	call := ca.Call
+	if cs := p.Callees(call); len(cs) == 1 {
+		// custom helper with a single return forwarding a time predicate over its parameters
+		cal := cs[0]
+		var ret *ssa.Return
+		n := 0
+		for _, blk := range cal.Blocks {
+			if r, ok := blk.Instrs[len(blk.Instrs)-1].(*ssa.Return); ok {
+				ret, n = r, n+1
+			}
+		}
+		if n != 1 || len(ret.Results) != 1 {
+			return ""
+		}
+		inner := p.NormCondValue(ret.Results[0])
+		if inner == nil || inner.Kind != "callbool" || inner.Call == nil || len(p.Callees(inner.Call)) != 0 {
+			return ""
+		}
+		t := truth
+		if inner.Neg {
+			t = !t
+		}
+		// operands resolved to the caller: substitute parameters by the call's arguments
+		return timeRelExt(p, inner.Call, t, func(v ssa.Value) core.Prov {
+			return p.ResolveAlong(p.ProvAt(v, "", inner.Call), []ssa.CallInstruction{call})
+		}, a, b)
+	}
+	return timeRelExt(p, call, truth, func(v ssa.Value) core.Prov { return p.ProvAt(v, "", call) }, a, b)
+}
+
+func timeRelExt(p *core.Program, call *ssa.Call, truth bool, prov func(ssa.Value) core.Prov, a, b side) string {
+	name := core.CalleeFullName(call)
+	var rel string
+	switch {
+	case strings.HasSuffix(name, "time.Time).Before"):
+		rel = "<"
+	case strings.HasSuffix(name, "time.Time).After"):
+		rel = ">"
+	case strings.HasSuffix(name, "time.Time).Equal"):
+		rel = "=="
+	default:
+		return ""
+	}
+	if len(call.Call.Args) != 2 {
+		return ""
+	}
+	px, py := prov(call.Call.Args[0]), prov(call.Call.Args[1])
+	switch {
+	case a(px) && b(py):
+	case a(py) && b(px):
+		rel = map[string]string{"<": ">", ">": "<", "==": "=="}[rel]
+	default:
+		return ""
+	}
+	if !truth {
+		rel = map[string]string{"<": ">=", ">": "<=", "==": "!="}[rel]
+	}
+	return rel
+}
+
+// timeGuard: edges establishing one of the given relations between a and b.
+func timeGuard(p *core.Program, a, b side, rels ...string) core.GuardMatch {
+	return func(ca *core.CondAtom, truth bool) bool {
+		r := timeRel(p, ca, truth, a, b)
+		for _, x := range rels {
+			if r == x {
+				return true
+			}
+		}
+		return false
+	}
+}
+
 func hasPathSuffix(suffix string) side {
 	return func(pr core.Prov) bool {
 		return pr.Any(func(a core.Atom) bool { return strings.HasSuffix(a.Path, suffix) })
@@ -120,36 +201,25 @@ func c12(r *core.Run) {
 		r.Check(sent != nil && pooled, "C12/R1", "gauge:released=pooled", p.InstrPos(bo.Instr), "the coin sent is the coin added to the distribution pool", "the amount added to the distribution pool is not the amount pulled from the gauge")
 		// R4
 		eff := &core.Effect{Instr: bo.Instr}
+		emptyFalse := func(ca *core.CondAtom, truth bool) bool {
+			return extBool(p, "types.Coins).Empty", false, isBal)(ca, truth)
+		}
 		for _, g := range []struct {
 			name string
 			m    core.GuardMatch
 		}{
-			{"end-not-before-now", extBool(p, "time.Time).Before", false, isEnd, isNow)},
-			{"end-not-before-start", extBool(p, "time.Time).Before", false, isEnd, isStart)},
-			{"end-not-equal-start", extBool(p, "time.Time).Equal", false, isEnd, isStart)},
-			{"balance-not-empty", extBool(p, "types.Coins).Empty", false, isBal)},
+			{"end-not-before-now", timeGuard(p, isEnd, isNow, ">=", ">", "==")},
+			{"end-not-before-start", timeGuard(p, isEnd, isStart, ">=", ">")},
+			{"end-not-equal-start", timeGuard(p, isEnd, isStart, "!=", ">", "<")},
+			{"balance-not-empty", emptyFalse},
 		} {
 			u := p.FindUnguarded(fn, []*core.Effect{eff}, g.m, true)
-			r.Check(len(u) == 0, "C12/R4", "gauge:pull-guard:"+g.name, p.InstrPos(bo.Instr), "pull behind "+g.name, "coins can be pulled from a gauge without passing the "+g.name+" test (release outside the start–end interval or division by a zero duration)")
+			r.Check(len(u) == 0, "C12/R4", "gauge:pull-guard:"+g.name, p.InstrPos(bo.Instr), "pull behind "+g.name, "coins can be pulled from a gauge without passing the "+g.name+" test at full time precision (release outside the start–end interval or division by a zero duration)")
 		}
 	}
 	// R3 deletes on the reward path: judged in the function that calls the record deleter directly
 	nDel := 0
-	degenerate := anyOf(extBool(p, "time.Time).Before", true, isEnd, isStart), extBool(p, "time.Time).Equal", true, isEnd, isStart))
-	role := func(v ssa.Value, at ssa.Instruction) string {
-		pr := p.ProvAt(v, "", at)
-		switch {
-		case isBal(pr):
-			return "balance"
-		case isEnd(pr):
-			return "End"
-		case isStart(pr):
-			return "Start"
-		case isNow(pr):
-			return "now"
-		}
-		return "?"
-	}
+	degenerate := timeGuard(p, isEnd, isStart, "<", "==", "<=")
 	for _, fn := range p.Summary(entry).Funcs {
 		for _, e := range p.Effects(fn) {
 			if !effHas(e, "Delete", stGauge) || e.Direct {
@@ -179,7 +249,7 @@ func c12(r *core.Run) {
 					swept = true
 				}
 			}
-			// removed edges: must-pass atoms of this delete, used as the semantic key of the site
+			// the relations every path to this delete has established (single-edge cuts): the semantic key of the site
 			var keyParts []string
 			for _, b := range fn.Blocks {
 				ifi, ok := b.Instrs[len(b.Instrs)-1].(*ssa.If)
@@ -187,9 +257,6 @@ func c12(r *core.Run) {
 					continue
 				}
 				ca := p.NormCond(ifi)
-				if ca.Kind != "callbool" || ca.Call == nil || len(p.Callees(ca.Call)) > 0 {
-					continue
-				}
 				for succ := 0; succ < 2; succ++ {
 					if core.PathExists(fn, map[core.Edge]bool{{From: b, Succ: succ}: true}, e.Instr, nil) {
 						continue
@@ -198,14 +265,15 @@ func c12(r *core.Run) {
 					if succ == 1 {
 						truth = ca.Neg
 					}
-					name := core.CalleeFullName(ca.Call)
-					name = name[strings.LastIndex(name, ".")+1:]
-					args := ca.Call.Call.Args
-					var roles []string
-					for _, a := range args {
-						roles = append(roles, role(a, ca.Call))
+					if rel := timeRel(p, ca, truth, isEnd, isNow); rel != "" {
+						keyParts = append(keyParts, "End"+rel+"now")
 					}
-					keyParts = append(keyParts, fmt.Sprintf("%s(%s)=%v", name, strings.Join(roles, ","), truth))
+					if rel := timeRel(p, ca, truth, isEnd, isStart); rel != "" {
+						keyParts = append(keyParts, "End"+rel+"Start")
+					}
+					if extBool(p, "types.Coins).Empty", true, isBal)(ca, truth) {
+						keyParts = append(keyParts, "balance-empty")
+					}
 				}
 			}
 			sort.Strings(keyParts)
